@@ -103,7 +103,8 @@ def pipeline_instance():
         shapes['psd'] = psd.shape
         sirs = {}
         for name in ('mvdr_souden', 'mvdr_souden+ban', 'gev', 'gev+ban', 'rank1_pca+mvdr_souden', 'rank1_gev+mvdr_souden', 'rank1_pca+gev',
-                     'rank1_gev+gev', 'wmwf', 'wmwf+ban', 'rank1_pca+wmwf', 'rank1_gev+wmwf', 'rank1_pca+wmwf+ban', 'wmwf-selection-vector'):
+                     'rank1_gev+gev', 'wmwf', 'wmwf+ban', 'rank1_pca+wmwf', 'rank1_gev+wmwf', 'rank1_pca+wmwf+ban', 'wmwf-selection-vector',
+                     'wmwf-frequency-dependent'):
             out_img = np.zeros((K, K, F, T), dtype=complex)
             out_noise = np.zeros((K, F, T), dtype=complex)
             # every second scene designs the filters of all sources in one call on (K, F, D, D) stacks (explicit reference channel)
@@ -124,7 +125,10 @@ def pipeline_instance():
                         kw['use_eig'] = True
                     elif name.startswith('rank1_gev'):
                         kw['atf_kwargs'] = {'use_eig': True}
-                if name == 'wmwf-selection-vector':
+                if name == 'wmwf-frequency-dependent':
+                    # the frequency dependent speech-distortion trade-off of the WMWF (an option forwarded by the wrapper)
+                    w = get_bf_vector('wmwf', tgt, noi, reference_channel=0, distortion_weight='frequency_dependent')
+                elif name == 'wmwf-selection-vector':
                     # the reference given as a (one-hot or weighted) channel selection vector instead of a channel number
                     u = np.zeros(D)
                     u[0] = 1.0
@@ -134,8 +138,12 @@ def pipeline_instance():
                 else:
                     w = get_bf_vector(name, tgt, noi, **kw)           # (F, D)
                 shapes['w'] = w.shape
-                for j in range(K):
-                    out_img[j, k] = bf.apply_beamforming_vector(w, images[j])
+                if inp['seed'] % 3 == 1:
+                    # one filter applied to the stack of all source images in one (broadcast) call
+                    out_img[:, k] = bf.apply_beamforming_vector(w, images)
+                else:
+                    for j in range(K):
+                        out_img[j, k] = bf.apply_beamforming_vector(w, images[j])
                 out_noise[k] = bf.apply_beamforming_vector(w, noise)
             # time-domain like signals for the metric: real and imaginary parts stacked
             ic = np.concatenate([out_img.real, out_img.imag], axis=-1).reshape(K, K, -1)
